@@ -120,11 +120,13 @@ def _size(universe, letters):
 
 
 @st.composite
-def arrays(draw, universe, letters=None, modes=("coded",), tag="x", min_dims=0, elems=None):
+def arrays(draw, universe, letters=None, modes=("coded",), tag="x", min_dims=0, elems=None, allow_int=False):
     if letters is None:
         letters = draw(ordered_subtuple(uletters(universe), min_size=min_dims))
     mode = draw(st.sampled_from(list(modes)))
     desc = {"letters": list(letters), "mode": mode, "tag": tag}
+    if allow_int and mode == "coded" and draw(st.integers(0, 4)) == 0:
+        desc["mode"] = mode = "int"  # integer-valued entries stored with an integer dtype (read-only uses)
     if len(letters) >= 2:
         mem = draw(st.sampled_from(["C", "C", "C", "F", "T", "S"]))
         if mem != "C":
